@@ -11,6 +11,18 @@ SPEC = {
         {'pkg': 'commit/merkleroot/rmn', 'pkgname': 'rmn',
          'src': 'harness/commit/merkleroot/rmn/c06_test.go', 'test': 'TestVerif_C06_sweep',
          'sinks': {'C06_sweep': 'c06_judge'}, 'n': {'quick': 1, 'thorough': 6}},
+        {'pkg': 'commit/merkleroot/rmn', 'pkgname': 'rmn',
+         'src': ['harness/commit/merkleroot/rmn/c06_test.go', 'harness/commit/merkleroot/rmn/c06h_test.go'],
+         'test': 'TestVerif_C06_hist', 'env': {'VERIF_C06_STREAM': '0'},
+         'sinks': {'C06_hist': 'hist_judge'}, 'n': {'quick': 300, 'thorough': 4000}},
+        {'pkg': 'commit/merkleroot/rmn', 'pkgname': 'rmn',
+         'src': ['harness/commit/merkleroot/rmn/c06_test.go', 'harness/commit/merkleroot/rmn/c06h_test.go'],
+         'test': 'TestVerif_C06_hist', 'env': {'VERIF_C06_STREAM': '1'},
+         'sinks': {'C06_hist1': 'hist_judge'}, 'n': {'quick': 300, 'thorough': 4000}},
+        {'pkg': 'commit/merkleroot/rmn', 'pkgname': 'rmn',
+         'src': ['harness/commit/merkleroot/rmn/c06_test.go', 'harness/commit/merkleroot/rmn/c06h_test.go'],
+         'test': 'TestVerif_C06_hist', 'env': {'VERIF_C06_STREAM': '2'},
+         'sinks': {'C06_hist2': 'hist_judge'}, 'n': {'quick': 300, 'thorough': 4000}},
     ],
     'rule': 'one case = one scripted run of the real rmn.controller.ComputeReportSignatures (scripted PeerClient that owns the '
             'Recv channel and records every Send, table-driven ed25519 / RMNCrypto stubs, RMNHome stub). Configurations: 2..6 '
@@ -37,7 +49,22 @@ SPEC = {
             'wrong dest / offramp / digest, signature of another key / over other bytes / empty, wrong or missing payload, garbage, '
             'unknown or foreign request id, unknown or other sender, answering twice; 14 for signature responses) applied to ONE '
             'response of an otherwise honest run, on VERIF_N random configurations each. The ed25519 stub accepts a signature only '
-            'over sha256(prefix | sha256(observation bytes)) computed independently by the harness. non-trivial = a ReportSignatureRequest was sent or the call succeeded; distinct by full input',
+            'over sha256(prefix | sha256(observation bytes)) computed independently by the harness. '
+            'Sinks C06_hist / C06_hist1 / C06_hist2 (three independent streams of the same part): one case = a HISTORY of 2..4 calls on ONE long-lived '
+            'controller built by the real NewController (as the merkleroot Processor keeps it; same PeerClient, RMNHome reader and RMNCrypto objects '
+            'throughout, timer durations fixed at construction). Between the calls the environment changes, one aspect per history (20 themes) or 2..4 '
+            'aspects at once or everything regenerated: observers of a requested chain removed (down to F+1 / F / 0) / added / swapped at equal count, '
+            'F_home raised / lowered across the observer count, RMNHome node removed / added, offchain key rotated, remote signer removed / added / '
+            'address changed / moved to another node, F_remote changed, lane interval / onramp changed, lane dropped / added, offramp changed, config '
+            'digest changed — each under the SAME config digest (RMNHome.setDynamicConfig keeps it) and together with a new digest; the reader is strict '
+            '(answers only for the digest current at that call) and hands out freshly built values at every call. Leftover state that legitimately '
+            'persists is varied too: InitConnection on a digest change (as the Processor does) and at random other moments, late answers to requests of '
+            'EARLIER calls (their real request ids, correct content for that earlier call) delivered during later calls, nodes answering with the key / '
+            'signer address they had in an earlier call, model request ids counting on over the whole history. Every call is scripted and observed like a '
+            'C06_sched case and judged against the model started from THAT call\'s configuration (hist_model = the single-call model per call) and by the '
+            'single-call executable property against that call\'s configuration (additionally: every attributed observation comes from a node that is a '
+            'configured observer of that chain at that call). '
+            'non-trivial = a ReportSignatureRequest was sent or the call succeeded (C06_sched / C06_sweep); a history is non-trivial if something changed between two calls and a call after the first one got that far; distinct by full input',
     'trusted': [
         'ed25519 verification and RMNCrypto.VerifyReportSignatures are oracles (model: Section variables edv / vrs; harness: '
         'stubs keyed by the signer; the ed25519 stub also binds the signed bytes to the independently computed preimage)',
@@ -55,15 +82,21 @@ SPEC = {
         'liveness only: Send calls succeed, request ids do not repeat (crypto/rand 64 bit), at most F_home dishonest '
         'observers per lane, honest nodes answer requests sent to them correctly',
     ],
-    'level_text': 'PARTIAL. Proof: 13 Coq theorems over the executable two-phase model, for every configuration, every schedule '
+    'level_text': 'PARTIAL. Proof: 18 Coq theorems over the executable two-phase model, for every configuration, every schedule '
                   'parameter and every event list (induction over the list): phase A hands on only with F_home+1 DISTINCT '
                   'configured observers per lane whose signed responses carry the same root for exactly the requested lane and '
                   'interval; success only with F_remote+1 DISTINCT configured signers valid for exactly the returned report, '
                   'ascending by address, lanes exactly the supported requested ones; terminal by the CtxDone event; no panic for '
                   'any event list; liveness (enough honest timely answers => success whatever else arrives); refutation '
                   'theorems with concrete witnesses for the pre-repair code (F12a nil sub-message / short root panics, F12b '
-                  'one node counted twice, and the comparator panic that F12b made reachable); no node is sent two observation requests or has two accepted observations. Correspondence: the real controller is driven through generated schedules every '
-                  'run and compared with the model on the full observable. Not covered (hence partial): which of several '
+                  'one node counted twice, and the comparator panic that F12b made reachable); no node is sent two observation requests or has two accepted observations. Histories (induction over the list of calls on one long-lived controller, '
+                  'every configuration sequence): C06_history_memoryless — the multi-call machine over the concatenated history equals the single-call machine '
+                  'mapped over the calls, so the result of call k depends on call k\'s configuration and event list alone; C06_history_sig_threshold / '
+                  'C06_history_obs_threshold — both thresholds hold for every call of every history against the configuration current at that call, witnessed by '
+                  'responses among that call\'s own events; C06_history_leftover_ignored — with request ids that never repeat, answers to earlier calls arriving '
+                  'during a later call change nothing; C06_history_example (observer set shrinks under the same digest: second call ErrNothingToDo). Correspondence: the real controller is driven through generated schedules every '
+                  'run and compared with the model on the full observable; sequences of calls on one long-lived controller with the environment changing between the calls are '
+                  'driven and compared call by call (sinks C06_hist*). Not covered (hence partial): which of several '
                   'simultaneously ready select cases Go picks beyond the pairs exercised as race items, and real wall-clock '
                   'deadlines (the model has the event CtxDone, timers are "due / not due")',
     'level_note': 'Trusted: Coq kernel, hand-written model, differential harness and its parked-goroutine protocol. Signature '
@@ -74,5 +107,6 @@ SPEC = {
                 'validateSignedObservationResponse (+ validateRootLengths), gotSufficientObservationResponses, selectRoots, '
                 'transformAndSortObservations (order, and the index-out-of-range panic of its comparator for two observations of one node), sendReportSignatureRequest, listenForRmnReportSignatures, '
                 'validateReportSigResponse, sortAndParseReportSigs; GetRMNNodesInfo / GetF answers, chain-selectors lookup, '
-                'map orders, shuffles, request ids and Send failures are inputs of the model',
+                'map orders, shuffles, request ids and Send failures are inputs of the model; the long-lived controller as a history machine over calls '
+                '(Model/RmnHist.v: only the position in the request-id stream is threaded from call to call; NewController, InitConnection pass-through)',
 }
